@@ -78,12 +78,13 @@ K64_FUNCS += [dict(fn='secp256k1_fe_mul_inner', short='fe_mul_inner', key='k64_f
               dict(fn='secp256k1_fe_impl_half', short='fe_impl_half', key='k64_fe_half'), dict(fn='secp256k1_fe_impl_mul_int_unchecked', short='fe_impl_mul_int_unchecked', key='k64_fe_mul_int'),
               dict(fn='secp256k1_gej_double', short='gej_double', key='gej_double', style='bind', flatten=True, cps=FIELD_CALLEES, inl=['secp256k1_fe_impl_mul', 'secp256k1_fe_impl_sqr']),
               dict(fn='secp256k1_ge_set_gej_zinv', short='ge_set_gej_zinv', key='ge_set_gej_zinv', style='bind', flatten=True, cps=FIELD_CALLEES, inl=['secp256k1_fe_impl_mul', 'secp256k1_fe_impl_sqr']),
+              dict(fn='secp256k1_ge_set_ge_zinv', short='ge_set_ge_zinv', key='ge_set_ge_zinv', style='bind', flatten=True, cps=FIELD_CALLEES, inl=['secp256k1_fe_impl_mul', 'secp256k1_fe_impl_sqr']),
               dict(fn='secp256k1_gej_rescale', short='gej_rescale', key='gej_rescale', style='bind', flatten=True, cps=FIELD_CALLEES, inl=['secp256k1_fe_impl_mul', 'secp256k1_fe_impl_sqr']),
               dict(fn='secp256k1_fe_impl_cmov', short='fe_impl_cmov', key='k64_fe_cmov'), dict(fn='secp256k1_fe_impl_normalizes_to_zero', short='fe_impl_normalizes_to_zero', key='k64_fe_ntz'),
               dict(fn='secp256k1_gej_add_ge', short='gej_add_ge', key='gej_add_ge', style='bind', flatten=True, cps=FIELD_CALLEES + ['k64_fe_cmov', 'k64_fe_ntz'], inl=['secp256k1_fe_impl_mul', 'secp256k1_fe_impl_sqr'])]
 K64_PROOFS = [('scalar_mul_512b', 'Kernel/ScalarMul4x64.vo', 'scalar_mul_512b_wp'), ('scalar_sqr_512b', 'Kernel/ScalarMul4x64.vo', 'scalar_sqr_512b_wp'),
               ('scalar_mul', 'Kernel/ScalarMul.vo', 'scalar_mul_correct'), ('scalar_sqr', 'Kernel/ScalarMul.vo', 'scalar_sqr_correct'),
-              ('gej_double', 'Kernel/GejDouble.vo', 'gej_double_correct'), ('ge_set_gej_zinv', 'Kernel/GroupSmall.vo', 'ge_set_gej_zinv_correct'), ('gej_rescale', 'Kernel/GroupSmall.vo', 'gej_rescale_correct'),
+              ('gej_double', 'Kernel/GejDouble.vo', 'gej_double_correct'), ('ge_set_gej_zinv', 'Kernel/GroupSmall.vo', 'ge_set_gej_zinv_correct'), ('gej_rescale', 'Kernel/GroupSmall.vo', 'gej_rescale_correct'), ('ge_set_ge_zinv', 'Kernel/GroupSmall.vo', 'ge_set_ge_zinv_correct'),
               ('gej_add_ge', 'Kernel/GejAddGe.vo', 'gej_add_ge_correct')]
 PROOFS = {'secp256k1_fe_mul_inner': ('Kernel/Field5x52.vo', 'fe_mul_inner_correct'),
           'secp256k1_fe_sqr_inner': ('Kernel/Field5x52Sqr.vo', 'fe_sqr_inner_correct')}
@@ -187,7 +188,7 @@ def limb_cases(rng, n, nin):
 RAW_SHAPES = {   # input shapes of the raw ops: S scalar limbs (4 x u64), F field limbs (5), T storage limbs (4), I flag, M magnitude, P non-negative int
  'scalar_is_zero': 'S', 'scalar_cmov': 'SSI', 'fe_impl_cmov': 'FFI', 'fe_storage_cmov': 'TTI', 'int_cmov': 'PPI', 'scalar_check_overflow': 'S',
  'scalar_is_high': 'S', 'scalar_cond_negate': 'sI', 'scalar_negate': 's', 'fe_impl_normalize': 'F', 'fe_impl_normalize_weak': 'F',
- 'fe_impl_normalizes_to_zero': 'F', 'fe_impl_negate_unchecked': 'fM', 'fe_impl_add': 'ff', 'fe_impl_half': 'f', 'fe_impl_is_odd': '1', 'scalar_mul_512': 'SS', 'scalar_sqr_512': 'S', 'scalar_reduce_512': 'SS', 'fe_impl_set_b32_limit': 'B', 'fe_impl_get_b32': 'F', 'gej_double': 'Iggg', 'gej_add_ge': 'Iggggg', 'ge_set_gej_zinv': 'Iggg', 'gej_rescale': 'gggg', 'scalar_eq': 'SE', 'scalar_set_b32': 'N', 'scalar_get_b32': 'S', 'scalar_add': 'ss', 'scalar_half': 's', 'scalar_mul_512b': 'SS', 'scalar_sqr_512b': 'S', 'scalar_mul': 'SS', 'scalar_sqr': 'S'}
+ 'fe_impl_normalizes_to_zero': 'F', 'fe_impl_negate_unchecked': 'fM', 'fe_impl_add': 'ff', 'fe_impl_half': 'f', 'fe_impl_is_odd': '1', 'scalar_mul_512': 'SS', 'scalar_sqr_512': 'S', 'scalar_reduce_512': 'SS', 'fe_impl_set_b32_limit': 'B', 'fe_impl_get_b32': 'F', 'gej_double': 'Iggg', 'gej_add_ge': 'Iggggg', 'ge_set_gej_zinv': 'Iggg', 'ge_set_ge_zinv': 'Iggg', 'gej_rescale': 'gggg', 'scalar_eq': 'SE', 'scalar_set_b32': 'N', 'scalar_get_b32': 'S', 'scalar_add': 'ss', 'scalar_half': 's', 'scalar_mul_512b': 'SS', 'scalar_sqr_512b': 'S', 'scalar_mul': 'SS', 'scalar_sqr': 'S'}
 N_LIMBS = [0xBFD25E8CD0364141, 0xBAAEDCE6AF48A03B, 0xFFFFFFFFFFFFFFFE, 0xFFFFFFFFFFFFFFFF]
 def raw_inputs(rng, shape):
     v = []
